@@ -185,6 +185,8 @@ pub struct SessP {
     pub sgrp: bool,
     /// first TOI handed out by the sender (TOIs are up to 112 bits wide)
     pub toi0: u128,
+    /// fdt_start_id of the sender (FDT Instance IDs are 20 bits wide and wrap)
+    pub fid0: u32,
     pub objs: Vec<ObjP>,
     // derived
     pub fdts: Vec<FdtInst>,
@@ -214,6 +216,7 @@ impl Default for SessP {
             rx: "recv".into(),
             sgrp: false,
             toi0: 1,
+            fid0: 1,
             objs: vec![],
             fdts: vec![],
             sched: vec![],
@@ -228,7 +231,7 @@ fn b(x: bool) -> u8 {
 impl SessP {
     pub fn fmt(&self, with_derived: bool) -> String {
         let mut s = format!(
-            "prop={} oti={} w={} mode={} ro={} fcenc={} mux={} dt={} idle={} n={} tail={} fcar={} maxc={} wr={} wmd5={} rx={} sgrp={} toi0={}",
+            "prop={} oti={} w={} mode={} ro={} fcenc={} mux={} dt={} idle={} n={} tail={} fcar={} maxc={} wr={} wmd5={} rx={} sgrp={} toi0={} fid0={}",
             self.prop,
             self.oti.fmt(),
             self.w,
@@ -246,7 +249,8 @@ impl SessP {
             b(self.wmd5),
             self.rx,
             b(self.sgrp),
-            self.toi0
+            self.toi0,
+            self.fid0
         );
         for o in &self.objs {
             s += &format!(
@@ -322,6 +326,9 @@ impl SessP {
         sp.sgrp = pb(g.get("sgrp")?)?;
         if let Some(t) = g.get("toi0") {
             sp.toi0 = t.parse().ok()?;
+        }
+        if let Some(t) = g.get("fid0") {
+            sp.fid0 = t.parse().ok()?;
         }
         for sec in secs {
             let sec = sec.trim();
